@@ -413,3 +413,65 @@ func goSites(p *Program, rel string) []goSite {
 	}
 	return out
 }
+
+// ---------------------------------------------------------------- loop error exits
+
+// kLoopErrorExits: in the connection's read and write loops, every return taken because the stream reported an error is
+// preceded by the teardown of the connection (terminate): otherwise the connection stays installed with one of its loops
+// gone — later senders block forever (nobody drains tx) or wait for a response that is never read.
+func (c *concCtx) kLoopErrorExits(rule string) {
+	r, p := c.r, c.p
+	for _, loop := range []string{"readloop", "writeloop"} {
+		fn := p.Func(c.rel, "conn", loop)
+		key := c.rel + ".conn." + loop + "/error-exit-teardown"
+		if fn == nil {
+			r.Unk(rule, key, token.NoPos, "anchor missing")
+			continue
+		}
+		n, bad := 0, token.NoPos
+		allInstrs(fn, func(in ssa.Instruction) {
+			call, ok := in.(*ssa.Call)
+			if !ok {
+				return
+			}
+			id := callID(&call.Call)
+			if id.pkg != ttlvPath || id.recv != "Stream" || (id.name != "Send" && id.name != "Recv") {
+				return
+			}
+			// returns dominated by `err != nil` of this call
+			for _, b := range fn.Blocks {
+				ret, isRet := b.Instrs[len(b.Instrs)-1].(*ssa.Return)
+				if !isRet {
+					continue
+				}
+				onErr := false
+				for _, dc := range dominatingConds(b) {
+					if bo, ok := dc.cond.(*ssa.BinOp); ok && bo.X == ssa.Value(call) && isNilConst(bo.Y) && (bo.Op == token.NEQ) == dc.outcome {
+						onErr = true
+					}
+				}
+				if !onErr {
+					continue
+				}
+				n++
+				torn := false
+				allInstrs(fn, func(in2 ssa.Instruction) {
+					if c2, ok := in2.(*ssa.Call); ok && callID(&c2.Call).name == "terminate" && dominatesInstr(c2, ret) && dominatesInstr(call, c2) {
+						torn = true
+					}
+				})
+				if !torn {
+					bad = ret.Pos()
+				}
+			}
+		})
+		switch {
+		case bad.IsValid():
+			r.Bad(rule, key, bad, "%s returns on a stream error without tearing the connection down: the connection stays installed with this loop gone, so the next exchange blocks forever on the hand-off channel (holding the client's lock) or waits for a response nobody reads", loop)
+		case n == 0:
+			r.Unk(rule, key, fn.Pos(), "no return on a stream error found in %s", loop)
+		default:
+			r.OK(rule, key, fn.Pos(), "%d return(s) on a stream error, each after terminate", n)
+		}
+	}
+}
